@@ -232,6 +232,12 @@ def run_rule(cx, rule, state, want):
                 obls.append(("C01-L/%s/value" % key, z3.And(S(v.value) == S(d), z3.Length(S(d)) >= 1)))
         else:
             obls.append(("C01-L/%s/value" % key, conj(isinstance(v, HT.TokenValue), S(v.value) == S(m))))
+        # link to C01-G: the productions are proved for tokens whose text is in the language of their type; a rule that re-types its
+        # token (t_TERM: reserved words) must only do so for a text of the new type, spelled as the tree prints it
+        if tok.type != ttype:
+            spell = [w for w, typ in P.reserved.items() if typ == tok.type]
+            obls.append(("C01-L/%s/re-typed-token-is-spelled-as-its-type-is-printed" % key,
+                         z3.Or([S(m) == w for w in spell]) if spell else False))
         if state == "after-token":
             lv = last.value
             obls.append(("C01-L/%s/frame-last" % key, True if lv.tail is lv.tail else False))
